@@ -256,6 +256,7 @@ class Interp:
             'math.log2': __import__('math').log2,
             'math.floor': __import__('math').floor,
             'logging.getLogger': lambda *a: _NullLogger(),
+            'collections.defaultdict': __import__('collections').defaultdict,
             'more_itertools.consume': lambda it_, n=None: [None for _ in it_] and None,
             'typing.cast': lambda t, v: v,
             'tp.cast': lambda t, v: v,
@@ -799,6 +800,26 @@ class Interp:
         inst = Instance(cls)
         if f'{cls.node.name}.__init__' in cls.mod.functions:
             RepoFunc(self, cls.mod, cls.mod.functions[f'{cls.node.name}.__init__'], bound_self=inst)(*args, **(kwargs or {}))
+        elif any('dataclass' in norm(d) for d in cls.node.decorator_list):
+            # synthesised __init__ of a dataclass: annotated class-level fields in order
+            fields = [st for st in cls.node.body if isinstance(st, ast.AnnAssign) and isinstance(st.target, ast.Name)]
+            args = list(args)
+            kwargs = dict(kwargs or {})
+            if len(args) > len(fields):
+                raise InterpRaise('TypeError')
+            for i, st in enumerate(fields):
+                name = st.target.id
+                if i < len(args):
+                    v = args[i]
+                elif name in kwargs:
+                    v = kwargs.pop(name)
+                elif st.value is not None:
+                    v = self.eval(cls.mod, st.value, Env())
+                else:
+                    raise InterpRaise('TypeError')
+                setattr(inst, name, v)
+            if kwargs:
+                raise InterpRaise('TypeError')
         return inst
 
     def eval_call(self, mod, e: ast.Call, env):
